@@ -18,10 +18,10 @@
 (* Design-level properties (TLC): symmetry, zero diagonal, independence of    *)
 (* the column order (all permutations), and the relation between the direct   *)
 (* computation and the duplicate-sequence shortcut of the implementation      *)
-(* (run/_expand, transcribed below): they agree on every alignment without    *)
-(* non-canonical symbols.  The record emitted for each alignment says for     *)
-(* every pair where the shortcut takes its value from, so that the harness    *)
-(* can attribute a disagreement of the real code to it.                       *)
+(* (run/_expand, transcribed below): they agree on every alignment.  The      *)
+(* record emitted for each alignment says for every pair where the shortcut   *)
+(* takes its value from, so that the harness can attribute a disagreement of  *)
+(* the real code to it.                                                       *)
 EXTENDS NJTrees, Emit
 
 CONSTANTS NSeq,       \* number of sequences
@@ -59,16 +59,19 @@ Stat(a, i, j) == [cnt |-> Count(a, i, j), total |-> Total(a, i, j), diff |-> Dif
 Direct(a) == [p \in {q \in Seqs \X Seqs : q[1] < q[2]} |-> Count(a, p[1], p[2])]   \* total, diff, p follow from it
 
 (* ---- the duplicate-sequence shortcut of _PairwiseDistance.run / _expand --------------- *)
-(* A later sequence j is declared a duplicate of i when no difference is observed between  *)
-(* them; it is then left out and its distances are copied from i afterwards.               *)
-NoObservedDiff(a, i, j) == Diff(a, i, j) = 0
+(* A later sequence j is declared a duplicate of i when the two index arrays are equal:    *)
+(* the same canonical symbol, or a non-canonical symbol in both, at every position.  It is  *)
+(* then left out and its distances are copied from i afterwards.  (Before the repair of     *)
+(* C15 the test was "no difference observed on the valid columns", Diff(a, i, j) = 0, which *)
+(* copies wrong values when gaps / ambiguity codes are present.)                            *)
+SameIndexed(a, i, j) == \A c \in Cols(a) : a[i][c] = a[j][c] \/ (a[i][c] \notin Canon /\ a[j][c] \notin Canon)
 
 RECURSIVE ScanDupes(_, _, _, _)       \* the double loop of run(): returns alias = [dup -> kept]
 ScanDupes(a, i, j, alias) ==
     IF i >= NSeq THEN alias
     ELSE IF i \in DOMAIN alias \/ j > NSeq THEN ScanDupes(a, i + 1, i + 2, alias)
     ELSE IF j \in DOMAIN alias THEN ScanDupes(a, i, j + 1, alias)
-    ELSE IF NoObservedDiff(a, i, j) THEN ScanDupes(a, i, j + 1, alias @@ (j :> i))
+    ELSE IF SameIndexed(a, i, j) THEN ScanDupes(a, i, j + 1, alias @@ (j :> i))
     ELSE ScanDupes(a, i, j + 1, alias)
 Alias(a) == ScanDupes(a, 1, 2, <<>>)
 
@@ -100,10 +103,12 @@ Shortcut(a) ==
                    IF p[1] # p[2] /\ p[1] \notin D /\ p[2] \notin D THEN p ELSE None]
     IN ExpandFrom(alias, SortedBy(D, alias), pw0)
 
-(* the shortcut reproduces the directly computed proportion (0 for identical sequences) *)
+(* the shortcut reproduces the directly computed statistics; 0 is exact for sequences     *)
+(* without an observed difference and, by identity, for equal sequences even when they     *)
+(* share no valid column                                                                   *)
 ShortcutExactT(a, tab, i, j) ==
     LET v == tab[<<i, j>>]
-    IN IF v = Zero THEN Total(a, i, j) > 0 /\ Diff(a, i, j) = 0
+    IN IF v = Zero THEN (Total(a, i, j) > 0 /\ Diff(a, i, j) = 0) \/ SameIndexed(a, i, j)
        ELSE IF v = None THEN FALSE
        ELSE Stat(a, v[1], v[2]) = Stat(a, i, j) \/ Stat(a, v[2], v[1]) = Stat(a, i, j)
             \* (the table is filled symmetrically; every estimator is symmetric in the pair)
@@ -157,7 +162,8 @@ Measured(a) ==
                  diff |-> Diff(a, p[1], p[2]),
                  jc |-> JCDefined(a, p[1], p[2]),
                  src |-> tab[p],
-                 exact |-> ShortcutExactT(a, tab, p[1], p[2])] : p \in PairList},
+                 exact |-> ShortcutExactT(a, tab, p[1], p[2]),
+                 same |-> SameIndexed(a, p[1], p[2])] : p \in PairList},
      canonical |-> AllCanonical(a)]
 
 AddColumnT(col) == /\ Mode = "all" /\ Len(aln[1]) < NCol
@@ -195,9 +201,9 @@ ColumnOrderFree ==
     Mode = "all" =>
         LET dir == Direct(aln) IN \A f \in Perms(Cols(aln)) : Direct(Permuted(aln, f)) = dir
 
-(* on alignments of canonical symbols the shortcut is the direct computation *)
-ShortcutSoundOnCanonical ==
-    (AllCanonical(aln) /\ Len(aln[1]) > 0) => LET tab == Shortcut(aln) IN \A p \in PairList : ShortcutExactT(aln, tab, p[1], p[2])
+(* the shortcut is the direct computation, on every alignment *)
+ShortcutSound ==
+    Len(aln[1]) > 0 => LET tab == Shortcut(aln) IN \A p \in PairList : ShortcutExactT(aln, tab, p[1], p[2])
 (* the shortcut never changes a pair of two kept sequences *)
 ShortcutKeepsComputed ==
     LET tab == Shortcut(aln)
